@@ -510,7 +510,9 @@ func (c *Comparer) Leaks(v reflect.Value, n *Node, uni int, path string) {
 			}
 			ok := false
 			for _, e := range evs {
-				for i := e.Start; i < e.End; i++ {
+				// the accepted capture spans its first to its last matched token (elided tokens skipped in
+				// front of the first one were never matched)
+				for i := e.First; e.First >= 0 && i <= e.Last; i++ {
 					if tokEq(got, c.L.Raw[i]) {
 						ok = true
 					}
@@ -524,7 +526,7 @@ func (c *Comparer) Leaks(v reflect.Value, n *Node, uni int, path string) {
 			for _, t := range got {
 				ok := false
 				for _, e := range evs {
-					for i := e.Start; i < e.End; i++ {
+					for i := e.First; e.First >= 0 && i <= e.Last; i++ {
 						if tokEq(t, c.L.Raw[i]) {
 							ok = true
 						}
